@@ -6,7 +6,8 @@ Extracted mechanically (regex level, see DESIGN.md §1.4):
     `List Instr`, with the operand table (name -> register id, class in/out/inout/lateout)
   * the divisor of `size /= D` in front of each asm block
   * the regime thresholds and split rules of `mac3` / `mul3`
-  * the big-base threshold of radix output, the Montgomery window
+  * the big-base threshold of radix output, the Montgomery window and the number of Montgomery
+    squarings per window (literal statements, or `for _ in 0..N { … }` times the statements in its body)
 If an anchor no longer matches, the previously generated value is kept and the item is
 reported as stale (not by itself a violation).
 Writes lean/NB/Gen/Params.lean, lean/NB/Gen/AsmProg.lean and build/extract.json.
@@ -21,7 +22,7 @@ DEFAULTS = {
     "addDiv": 5, "subDiv": 5,
     "tSchool": 32, "halfMul": 2, "tKara": 256, "halfDen": 2, "karaDen": 2,
     "toomDen": 3, "toomAdd": 1, "karaSlack": 1, "mulSlack": 1,
-    "bigBase": 64, "window": 4,
+    "bigBase": 64, "window": 4, "squarings": 4,
     "randDiv": 32, "randShift": 32, "randNative": 64,
 }
 
@@ -133,6 +134,72 @@ def grab(src, pattern, stale, tag, conv=int, ctx=None):
         return None
     return conv(v)
 
+def brace_block(src, open_idx):
+    """text between the `{` at `open_idx` and its matching `}` (exclusive), and the index after the `}`"""
+    depth = 0
+    for p in range(open_idx, len(src)):
+        if src[p] == "{":
+            depth += 1
+        elif src[p] == "}":
+            depth -= 1
+            if depth == 0:
+                return src[open_idx + 1:p], p + 1
+    return None, None
+
+def strip_comments(src):
+    return re.sub(r"//[^\n]*", "", re.sub(r"/\*.*?\*/", "", src, flags=re.S))
+
+SQUARING = r"montgomery\(\s*&(zz?)\s*,\s*&\1\s*,"      # montgomery(&z, &z, …) / montgomery(&zz, &zz, …)
+
+def loop_count(expr, ctx):
+    """value of the upper bound of `0..<expr>`: NUM, or NUM (+|-|*) NUM"""
+    m = re.fullmatch(r"\s*%s\s*(?:([-+*])\s*%s\s*)?" % (NUM, NUM), expr)
+    if not m:
+        return None
+    a = resolve(m.group(1), ctx)
+    if a is None:
+        return None
+    if m.group(2) is None:
+        return a
+    b = resolve(m.group(3), ctx)
+    if b is None:
+        return None
+    return {"+": a + b, "-": max(a - b, 0), "*": a * b}[m.group(2)]
+
+def monty_squarings(mon, stale):
+    """number of Montgomery squarings per window of `monty_modpow`: the squaring statements inside the
+    `if i != y.data.len() - 1 || j != 0 { … }` block; a `for _ in 0..N { … }` loop in that block counts
+    N times the squaring statements of its body"""
+    m = re.search(r"if\s+i\s*!=\s*y\.data\.len\(\)\s*-\s*1\s*\|\|\s*j\s*!=\s*0\s*\{", mon)
+    if not m:
+        stale.append("monty:squarings")
+        return None
+    block, _ = brace_block(mon, m.end() - 1)
+    if block is None:
+        stale.append("monty:squarings:block")
+        return None
+    block = strip_comments(block)
+    total, pos, rest = 0, 0, []
+    for lm in re.finditer(r"\bfor\s+\w+\s+in\s+0\s*\.\.(=?)([^{]*)\{", block):
+        if lm.start() < pos:
+            stale.append("monty:squarings:nested-loop")
+            return None
+        body, after = brace_block(block, lm.end() - 1)
+        n = loop_count(lm.group(2), mon)
+        if body is None or n is None:
+            stale.append("monty:squarings:loop-bound:" + lm.group(2).strip()[:30])
+            return None
+        if lm.group(1):
+            n += 1
+        total += n * len(re.findall(SQUARING, body))
+        rest.append(block[pos:lm.start()])
+        pos = after
+    rest.append(block[pos:])
+    if re.search(r"\b(while|loop|for)\b", "".join(rest)):
+        stale.append("monty:squarings:unknown-loop")
+        return None
+    return total + len(re.findall(SQUARING, "".join(rest)))
+
 def main():
     stale = []
     vals = dict(DEFAULTS)
@@ -193,6 +260,9 @@ def main():
         v = grab(mon, r"powers = Vec::with_capacity\(1 << (\d+)\)", stale, "monty:window")
         if v is not None:
             vals["window"] = v
+        v = monty_squarings(mon, stale)
+        if v is not None:
+            vals["squarings"] = v
     except OSError:
         stale.append("monty:file")
 
